@@ -4,6 +4,8 @@ from concurrent.futures import ThreadPoolExecutor
 from .. import common, corpus
 
 common.FLAVOURS["tsan"] = ("gcc", ["-O1", "-g", "-fsanitize=thread", "-fno-omit-frame-pointer"], [], ["-lpthread"])
+# uninstrumented and unoptimised: process start costs a millisecond (thousands of cold starts per run) and the windows are widest
+common.FLAVOURS["cold"] = ("gcc", ["-O0", "-g"], [], ["-lpthread"])
 
 
 def tsan_reports(err):
@@ -48,6 +50,10 @@ def run(tier):
         runs.append(("tsan", tsan, T, iters, common.SEED * 1000 + k, (k % 3) * 7))
     for k in range(4 if not full else 40):
         runs.append(("asan", asan, [4, 16][k % 2], 3000, common.SEED * 77 + k, 3))
+    cold = common.build("cold", main="threads.c")
+    ncold = 3000 if not full else 40000
+    for k in range(2 if not full else 8):
+        runs.append(("cold", cold, 8 if k % 2 == 0 else 16, 0, common.SEED * 13 + k, 0, ncold))
     env = dict(os.environ)
     env.update(common.SAN_ENV)
     env["TSAN_OPTIONS"] = "halt_on_error=0:second_deadlock_stack=1:exitcode=0:history_size=4"
@@ -55,11 +61,12 @@ def run(tier):
     timeouts = [0]
 
     def go(job):
-        fl, binary, T, iters, seed, stag = job
+        fl, binary, T, iters, seed, stag = job[:6]
+        extra = [str(job[6])] if len(job) > 6 else []
         if timeouts[0] >= 2:  # two runs hit the (100x) time bound: the remaining ones are not started (inconclusive, like a timeout)
             return -999, "", "skipped after two timeouts"
         try:
-            r = subprocess.run([binary, pf, str(T), str(iters), str(seed), str(stag)], capture_output=True, text=True, env=env, timeout=300, errors="replace")
+            r = subprocess.run([binary, pf, str(T), str(iters), str(seed), str(stag)] + extra, capture_output=True, text=True, env=env, timeout=300, errors="replace")
             return r.returncode, r.stdout, r.stderr
         except subprocess.TimeoutExpired:
             timeouts[0] += 1
@@ -71,8 +78,23 @@ def run(tier):
     stats = {"runs": len(runs), "tsan_runs": nrep, "thread_ops": 0, "tsan_report_blocks": 0, "programs": len(progs), "first_letters_covered": "".join(firsts),
              "threads_x_iterations": sorted(set((j[2], j[3]) for j in runs)), "reference_entries_ok": 0}
     for job, (rc, out, err) in zip(runs, outs):
-        fl, binary, T, iters, seed, stag = job
+        fl, binary, T, iters, seed, stag = job[:6]
         v.count()
+        if fl == "cold" and rc != -999:
+            kl = [l for l in out.splitlines() if l.startswith("K ")]
+            case = {"key": "cold-start trials T<=%d seed=%d" % (T, seed), "fam": "threads_cold", "flavour": fl, "threads": T}
+            if not kl:
+                v.violation(case, "crash:exit=%s" % rc, (out[-500:] + "\n" + err[-1500:]))
+                continue
+            k = kl[0].split()
+            stats["cold_start_processes"] = stats.get("cold_start_processes", 0) + int(k[1])
+            stats["cold_start_ops"] = stats.get("cold_start_ops", 0) + int(k[2])
+            if int(k[3]):
+                ms = [l for l in out.splitlines() if l.startswith(("M cold", "E cold"))]
+                v.violation(case, "cold-start:result-differs-from-single-threaded-reference", "%s of %s first operations differ\n%s" % (k[3], k[2], "\n".join(ms[:6])))
+            else:
+                v.distinct((fl, T, seed))
+            continue
         case = {"key": "%s T=%d iters=%d seed=%d" % (fl, T, iters, seed), "fam": "threads", "flavour": fl, "threads": T}
         if rc == -999:
             v.inconclusive.append({"why": "timeout", "case": case["key"]})
@@ -102,7 +124,7 @@ def run(tier):
             v.distinct((fl, T, seed))
             v.sample({"build": fl, "threads": T, "iterations_per_thread": iters, "operations": int(t[3]), "mismatches": 0, "tsan_reports": 0})
     v.cov["rule"] = ("N in {2,4,8,16} threads released by a barrier with staggered starts, each running create -> random option setters -> assemble (plain / chunk fitting / counting; 200 programs over lines of every "
-                     "first letter of the lookup tables, some failing) -> compare with the single-threaded reference -> destroy on private buffers, with random sched_yield/nanosleep between API calls; the reference is "
+                     "first letter of the lookup tables, some failing) -> compare with the single-threaded reference -> destroy on private buffers; plus thousands of COLD starts (a fresh process per trial whose first library calls are made concurrently by 2-16 threads released by a spin barrier with 0-5000 ns skew, uninstrumented -O0 build), with random sched_yield/nanosleep between API calls; the reference is "
                      "computed in a forked child so the first-ever asm_create_instance calls (the only moment the global tables change value) overlap in the threads; %d runs under ThreadSanitizer + runs under ASan; "
                      "reports de-duplicated by library frames; distinct = clean (build, threads, seed) runs" % nrep)
     v.cov["exhaustive"] = False
